@@ -1,6 +1,10 @@
 /- C30 — property theorems -/
 import TornadoModel.C30.Lemmas
 import TornadoModel.C30.Multipart
+import TornadoModel.C30.Multipart2231
+import TornadoModel.C30.Inner
+import TornadoModel.C30.Latin1
+import TornadoModel.C30.Entry
 import TornadoModel.Base.Wire
 namespace TornadoModel.C30
 open TornadoModel.C06 (Str)
@@ -30,6 +34,70 @@ theorem only_input_error (cfg : Config) (ct : Str) (body : Bytes) (ce : Bool) :
             · rfl
             · exact collapse_not_uncaught _
     · rfl
+
+/-! ### what the catch-all of `parse_body_arguments` has to catch -/
+
+/-- `multipart_inner_exceptions`: at the `parse_multipart_form_data` entry — OUTSIDE the `except Exception` of
+    `parse_body_arguments`, where the exception type is observable and is compared with the real code on every case — the
+    only exception type other than HTTPInputError is UnicodeDecodeError (a part header block that is not UTF-8), for every
+    configuration, boundary, body and pre-filled result.  (`HTTPHeaders.parse` on a fresh object never raises KeyError:
+    `part_headers_never_keyerror`; the fixed `_parse_header` raises nothing.)  This is the content behind `only_input_error`,
+    which by itself only restates the catch-all. -/
+theorem multipart_inner_exceptions (cfg : Config) (b data : Bytes) (f : Form) (k : String)
+    (h : parseMultipart cfg b data f = .error (.uncaught k)) : k = "UnicodeDecodeError" :=
+  parseMultipart_uncaught cfg b data f k h
+
+theorem utf8Strict_ff : utf8Strict [255, 58, 32, 120] = none := by
+  have h : C43.utf8Dec [255, 58, 32, 120] = [65533, 58, 32, 120] := by
+    rw [C43.utf8Dec.eq_def]
+    simp only [show ¬ (255 < 128) by decide, if_false, show (decide (194 ≤ 255) && decide (255 ≤ 223)) = false by decide,
+      show (decide (224 ≤ 255) && decide (255 ≤ 239)) = false by decide,
+      show (decide (240 ≤ 255) && decide (255 ≤ 244)) = false by decide, Bool.false_eq_true]
+    rw [utf8Dec_1 58 _ (by decide), utf8Dec_1 32 _ (by decide), utf8Dec_1 120 _ (by decide), C43.utf8Dec.eq_def]
+  unfold utf8Strict
+  simp only [h]
+  decide
+
+theorem parsePart_ff (f : Form) :
+    parsePart {} [255, 58, 32, 120, 13, 10, 13, 10, 118, 13, 10] f = .error (.uncaught "UnicodeDecodeError") := by
+  have hfind : findSub [13, 10, 13, 10] [255, 58, 32, 120, 13, 10, 13, 10, 118, 13, 10] = some 4 := by decide
+  have htake : List.take 4 [255, 58, 32, 120, 13, 10, 13, 10, 118, 13, 10] = [255, 58, 32, 120] := by decide
+  have hsz : ¬ (4 > ({} : Config).maxPartHeaderSize) := by decide
+  unfold parsePart
+  simp only [hfind, hsz, if_false, htake, utf8Strict_ff]
+
+/-- and it does happen, so the catch-all is needed: the body `--b CRLF 0xFF: x CRLF CRLF v CRLF --b--` -/
+theorem multipart_inner_unicode_error :
+    parseMultipart {} [98] [45, 45, 98, 13, 10, 255, 58, 32, 120, 13, 10, 13, 10, 118, 13, 10, 45, 45, 98, 45, 45] {} =
+      .error (.uncaught "UnicodeDecodeError") := by
+  have hr : rfindSub (dashes ++ unquoteBoundary [98] ++ dashes)
+      [45, 45, 98, 13, 10, 255, 58, 32, 120, 13, 10, 13, 10, 118, 13, 10, 45, 45, 98, 45, 45] = some 16 := by decide
+  have hs : splitOn (dashes ++ unquoteBoundary [98] ++ crlf)
+      (List.take 16 [45, 45, 98, 13, 10, 255, 58, 32, 120, 13, 10, 13, 10, 118, 13, 10, 45, 45, 98, 45, 45]) =
+      [[], [255, 58, 32, 120, 13, 10, 13, 10, 118, 13, 10]] := by decide
+  have hn : ¬ (([[], [255, 58, 32, 120, 13, 10, 13, 10, 118, 13, 10]] : List Bytes).length - 1 > ({} : Config).maxParts) := by
+    decide
+  unfold parseMultipart
+  simp only [Bool.not_true, Bool.false_eq_true, if_false, hr, hs, hn, List.foldlM_cons, List.foldlM_nil, List.isEmpty_nil,
+    List.isEmpty_cons, if_true, parsePart_ff, bind, Except.bind, pure, Except.pure]
+
+/-- `HTTPHeaders.parse(text)` on a fresh object never raises KeyError (its `_last_key` always names an existing entry) -/
+theorem part_headers_never_keyerror (text : Str) (cb : Bool) : C06.parse text cb ≠ .error .keyError :=
+  parse_noKeyError text cb
+
+/-- the three outcomes at the `parse_body_arguments` entry: a result, HTTPInputError, or the model gives up (`unmodelled`: an
+    RFC 2231 charset other than utf-8 / us-ascii / latin-1 in some part — there the clause rests on the tie's oracle) -/
+theorem parse_body_outcomes (cfg : Config) (ct : Str) (body : Bytes) (ce : Bool) :
+    (∃ f, parseBody cfg ct body ce = .ok f) ∨ parseBody cfg ct body ce = .error .httpInput ∨
+      parseBody cfg ct body ce = .error .unmodelled := by
+  have h := only_input_error cfg ct body ce
+  cases hr : parseBody cfg ct body ce with
+  | ok f => exact Or.inl ⟨f, rfl⟩
+  | error e =>
+    cases e with
+    | httpInput => exact Or.inr (Or.inl rfl)
+    | unmodelled => exact Or.inr (Or.inr rfl)
+    | uncaught k => rw [hr] at h; cases h
 
 /-! ### urlencoded forms -/
 
@@ -65,6 +133,82 @@ theorem urlencoded_roundtrip_entry (cfg : Config) (fields : List (Str × Bytes))
 
 example : ∀ f ∈ [(([97, 32, 233] : Str), ([0, 255, 38, 61] : Bytes)), ([97, 32, 233], [])],
     f.1.all (· < 256) = true ∧ f.2.all (· < 256) = true := by decide
+
+/-! ### urlencoded forms with non-ASCII names sent as UTF-8 (known finding `urlencoded/lossy/non-ascii-name-utf8`) -/
+
+/-- the lossless clause for urlencoded forms whose names are arbitrary text, sent the standard way (percent-encoded UTF-8).
+    False (`urlencoded_utf8_roundtrip_refuted`): `parse_qs_bytes` reads names as latin-1. -/
+def urlencoded_utf8_roundtrip_full : Prop :=
+  ∀ (fields : List (Str × Bytes)), (∀ f ∈ fields, f.1.all Wire.isScalar = true ∧ f.2.all (· < 256) = true) →
+    parseQsBytes (Spec.encodeUrlencodedUtf8 fields) = Spec.expectedFields fields
+
+/-- what comes back instead: every name as the latin-1 reading of its UTF-8 bytes (values are recovered exactly) -/
+theorem urlencoded_utf8_names_mojibake (fields : List (Str × Bytes))
+    (hb : ∀ f ∈ fields, f.1.all Wire.isScalar = true ∧ f.2.all (· < 256) = true) :
+    parseQsBytes (Spec.encodeUrlencodedUtf8 fields) =
+      Spec.expectedFields (fields.map (fun (n, v) => (C43.utf8Enc n, v))) := by
+  unfold Spec.encodeUrlencodedUtf8
+  apply urlencoded_roundtrip
+  intro f hf
+  simp only [List.mem_map] at hf
+  obtain ⟨g, hg, rfl⟩ := hf
+  refine ⟨?_, (hb g hg).2⟩
+  rw [List.all_eq_true]
+  intro b hbm
+  simpa using R.utf8Enc_lt g.1 (hb g hg).1 b hbm
+
+/-- `urlencoded_utf8_roundtrip_partial`: with ASCII names (the decidable side condition) the form is recovered exactly -/
+theorem urlencoded_utf8_roundtrip_partial (fields : List (Str × Bytes))
+    (hb : ∀ f ∈ fields, f.1.all (· < 128) = true ∧ f.2.all (· < 256) = true) :
+    parseQsBytes (Spec.encodeUrlencodedUtf8 fields) = Spec.expectedFields fields := by
+  have hmap : fields.map (fun (n, v) => (C43.utf8Enc n, v)) = fields := by
+    refine (List.map_congr_left (g := id) ?_).trans (List.map_id fields)
+    intro f hf
+    obtain ⟨n, v⟩ := f
+    have h1 := (hb (n, v) hf).1
+    rw [List.all_eq_true] at h1
+    have : C43.utf8Enc n = n := utf8Enc_ascii n (fun c hc => by simpa using h1 c hc)
+    simp [this]
+  unfold Spec.encodeUrlencodedUtf8
+  rw [hmap]
+  apply urlencoded_roundtrip
+  intro f hf
+  refine ⟨?_, (hb f hf).2⟩
+  have h1 := (hb f hf).1
+  rw [List.all_eq_true] at h1 ⊢
+  intro c hc
+  have := h1 c hc
+  simp only [decide_eq_true_eq] at this ⊢
+  omega
+
+example : ∀ f ∈ [(([97, 32, 37] : Str), ([0, 255, 38, 61] : Bytes))], f.1.all (· < 128) = true ∧ f.2.all (· < 256) = true := by
+  decide
+
+/-- the single field `é=` (sent as `%C3%A9=`) comes back under the name `Ã©` -/
+theorem urlencoded_utf8_roundtrip_refuted : ¬ urlencoded_utf8_roundtrip_full := by
+  intro h
+  have h1 := h [([233], [])] (by decide)
+  rw [urlencoded_utf8_names_mojibake [([233], [])] (by decide)] at h1
+  revert h1
+  decide
+
+/-- whatever the body, every field name `parse_qs_bytes` returns consists of code points below 256 (latin-1 reading) -/
+theorem urlencoded_names_latin1 (body : Bytes) (hb : ∀ b ∈ body, b < 256) :
+    ∀ kv ∈ parseQsBytes body, ∀ c ∈ kv.1, c < 256 :=
+  parseQsBytes_keysLt body hb
+
+/-- hence NO urlencoded body — under any client-side encoding — is parsed to a field named `名` (U+540D): for names
+    outside latin-1 the urlencoded half of the lossless clause cannot be met by any encoder -/
+theorem urlencoded_wide_name_unrecoverable (body : Bytes) (hb : ∀ b ∈ body, b < 256) (v : Bytes) :
+    parseQsBytes body ≠ Spec.expectedFields [([21517], v)] := by
+  intro h
+  have hk := parseQsBytes_keysLt body hb
+  rw [h] at hk
+  have e : Spec.expectedFields [([21517], v)] = [([21517], [v])] := by
+    simp [Spec.expectedFields, dappend, dset, dget]
+  rw [e] at hk
+  have := hk _ List.mem_cons_self 21517 List.mem_cons_self
+  omega
 
 /-! ### multipart round trip -/
 
@@ -149,6 +293,95 @@ theorem multipart_trailing_backslash_recovered :
       { files := [([92], [{ filename := [102], body := [118], contentType := C43.ofAscii "application/unknown" }])] } := by
     decide
   rw [this]
+
+/-! ### multipart round trip, RFC 2231 / 5987 parameters (`name*=utf-8''pct`) -/
+
+/-- `_parse_header` on the Content-Disposition value the RFC 2231 encoder writes (`form-data; name*=utf-8''…; filename*=utf-8''…`)
+    yields exactly the name and the filename, for ANY scalar-valued text (control characters, quotes, backslashes,
+    semicolons, `'`, `%`, `*`, non-ASCII, astral): `_parseparam`, `decode_params`, the percent-decoding, `email.utils.quote`/
+    `unquote` around the tick split, and the UTF-8 decoding of `collapse_rfc2231_value` compose to the identity. -/
+theorem multipart_disposition2231_recovered (name : Str) (filename : Option Str) (hn : name.all Wire.isScalar = true)
+    (hf : ∀ fn, filename = some fn → fn.all Wire.isScalar = true) :
+    parseHeader (R.dispValue name filename) =
+      .ok (C43.ofAscii "form-data", (C43.ofAscii "name", name) :: fnParams filename) :=
+  R.parseHeader_dispValue name filename hn hf
+
+/-- `multipart_roundtrip_2231`: the lossless clause for the RFC 2231 form.  Every list of fields and files (arbitrary byte
+    contents, repeated names; names and filenames ANY non-empty scalar-valued text — nothing is excluded, control characters
+    included, because everything outside `[A-Za-z0-9._~-]` travels percent-encoded) written by `Spec.encodeMultipart2231`
+    under a boundary whose delimiter occurs nowhere in the content is parsed back to exactly those fields and files
+    (same side condition `LF ∉ boundary` as `multipart_roundtrip`). -/
+theorem multipart_roundtrip_2231 (cfg : Config) (b : Bytes) (parts : List Spec.Part) (hwf : R.WellFormed cfg b parts)
+    (hlf : 10 ∉ b) :
+    parseMultipart cfg b (Spec.encodeMultipart2231 b parts) {} = .ok (Spec.expected parts) :=
+  R.parseMultipart_sendable_accept cfg b parts hwf.enabled (hwf.sendable hlf) hwf.count hwf.header_size
+
+set_option maxRecDepth 8000 in
+/-- non-vacuity: a field named `LF " \ ; é 😀 '` and an upload whose field name is `%41*` and whose filename is `NUL \`,
+    with a content type and binary content containing `--` and CR LF CR LF, under the boundary `zZ9` -/
+example : R.WellFormed {} [122, 90, 57]
+      [{ name := [10, 34, 92, 59, 233, 128512, 39], value := [0, 255, 45, 45] },
+       { name := [37, 52, 49, 42], filename := some [0, 92], ctype := some [116, 47, 112], value := [13, 10, 13, 10, 45, 45, 122] }] ∧
+    10 ∉ ([122, 90, 57] : Bytes) := by
+  refine ⟨?_, by decide⟩
+  constructor <;> decide
+
+/-- `limits_exact_2231`: both limits are exact on RFC 2231-encoded forms too -/
+theorem limits_exact_2231 (cfg : Config) (b : Bytes) (parts : List Spec.Part) (hen : cfg.enabled = true)
+    (hs : R.Sendable b parts) :
+    ((parts.length ≤ cfg.maxParts ∧ ∀ p ∈ parts, R.headerSize p ≤ cfg.maxPartHeaderSize) →
+      parseMultipart cfg b (Spec.encodeMultipart2231 b parts) {} = .ok (Spec.expected parts)) ∧
+    ((parts.length > cfg.maxParts ∨ ∃ p ∈ parts, R.headerSize p > cfg.maxPartHeaderSize) →
+      parseMultipart cfg b (Spec.encodeMultipart2231 b parts) {} = .error .httpInput) :=
+  ⟨fun h => R.parseMultipart_sendable_accept cfg b parts hen hs h.1 h.2,
+   fun h => R.parseMultipart_sendable_reject cfg b parts hen hs h⟩
+
+/-- non-vacuity: one part named `é`; its header block `Content-Disposition: form-data; name*=utf-8''%C3%A9` is 51 bytes -/
+example : R.Sendable [98] [{ name := [233], value := [118] }] ∧ R.headerSize { name := [233], value := [118] } = 51 := by
+  refine ⟨?_, by decide⟩
+  constructor <;> decide
+
+/-- `multipart_roundtrip_prefilled`: the same with pre-filled `arguments` / `files` dictionaries (what `parse_multipart_form_data`
+    is handed when the query string already produced arguments): the parts are appended to what is there, in order —
+    the result is the fold of `Spec.expected`'s step over the pre-filled result.  Both parameter styles. -/
+theorem multipart_roundtrip_prefilled (cfg : Config) (b : Bytes) (parts : List Spec.Part) (f : Form)
+    (hwf : WellFormed cfg b parts) (hlf : 10 ∉ b) :
+    parseMultipart cfg b (Spec.encodeMultipart b parts) f = .ok (parts.foldl stepOf f) := by
+  have hs := hwf.sendable hlf
+  rw [parseMultipart_encoded_eq cfg b parts f hwf.enabled hs.boundary_plain hs.boundary_lf hs.fresh,
+    if_neg (Nat.not_lt.mpr hwf.count)]
+  exact foldlM_contents cfg parts f hs.partsOK (fun p hp => by rw [← headerSize_eq]; exact hwf.header_size p hp)
+
+theorem multipart_roundtrip_2231_prefilled (cfg : Config) (b : Bytes) (parts : List Spec.Part) (f : Form)
+    (hwf : R.WellFormed cfg b parts) (hlf : 10 ∉ b) :
+    parseMultipart cfg b (Spec.encodeMultipart2231 b parts) f = .ok (parts.foldl stepOf f) := by
+  have hs := hwf.sendable hlf
+  rw [R.parseMultipart_encoded_eq cfg b parts f hwf.enabled hs.boundary_plain hs.boundary_lf hs.fresh,
+    if_neg (Nat.not_lt.mpr hwf.count)]
+  exact R.foldlM_contents cfg parts f hs.partsOK (fun p hp => by rw [← R.headerSize_eq]; exact hwf.header_size p hp)
+
+/-! ### the multipart round trip at the `parse_body_arguments` entry -/
+
+/-- `multipart_roundtrip_entry`: the lossless clause where the property places it — `parse_body_arguments` with the header
+    `Content-Type: multipart/form-data; boundary=<bt>` (boundary text non-empty, without `;`, not ending in whitespace;
+    `BoundaryText`): the boundary is extracted from the header, handed over as UTF-8, and the encoded form is recovered
+    exactly.  Both parameter styles. -/
+theorem multipart_roundtrip_entry (cfg : Config) (bt : Str) (parts : List Spec.Part) (hbt : BoundaryText bt)
+    (hwf : WellFormed cfg (C43.utf8Enc bt) parts) (hlf : 10 ∉ C43.utf8Enc bt) :
+    parseBody cfg (ctHeader bt) (Spec.encodeMultipart (C43.utf8Enc bt) parts) false = .ok (Spec.expected parts) := by
+  rw [parseBody_multipart cfg bt hbt, multipart_roundtrip cfg _ parts hwf hlf]
+  rfl
+
+theorem multipart_roundtrip_2231_entry (cfg : Config) (bt : Str) (parts : List Spec.Part) (hbt : BoundaryText bt)
+    (hwf : R.WellFormed cfg (C43.utf8Enc bt) parts) (hlf : 10 ∉ C43.utf8Enc bt) :
+    parseBody cfg (ctHeader bt) (Spec.encodeMultipart2231 (C43.utf8Enc bt) parts) false = .ok (Spec.expected parts) := by
+  rw [parseBody_multipart cfg bt hbt, multipart_roundtrip_2231 cfg _ parts hwf hlf]
+  rfl
+
+/-- non-vacuity: the boundary text `zZ9` -/
+example : BoundaryText [122, 90, 57] ∧ C43.utf8Enc [122, 90, 57] = [122, 90, 57] := by
+  refine ⟨?_, by decide⟩
+  constructor <;> decide
 
 /-! ### limits -/
 
